@@ -1,5 +1,5 @@
 (* C08  Incremental hash / MAC = one-shot for any chunking.  Statements only. *)
-From Dryoc Require Import Impl.Hashes Refine.Blake2b Refine.Hashes.
+From Dryoc Require Import Spec.Poly1305 Impl.Poly1305 Impl.Hashes Refine.Blake2b Refine.Hashes Refine.Poly1305.
 Import Blake2bImpl HashesImpl.
 Open Scope Z_scope.
 
@@ -28,6 +28,18 @@ Theorem C08_external_hasher : forall (H : Type) (upd : H -> bytes -> H),
 Proof. exact fold_update_concat. Qed.
 
 (* non-vacuity: a concrete chunking through the concrete model *)
+(* Poly1305 buffering: after any sequence of update calls the state is the absorbed view of the
+   concatenation (whole blocks folded into h, the remainder in the buffer) ... *)
+Theorem C08_poly1305_update_chunks : forall r pad (cs : list bytes) bs,
+  fold_left Poly1305Impl.update cs (absorbed r pad bs) = absorbed r pad (bs ++ concat cs).
+Proof. exact poly_update_chunks. Qed.
+
+(* ... hence the incremental MAC with any chunking = the one-shot MAC = RFC 8439 *)
+Theorem C08_onetimeauth_chunks : forall key (cs : list bytes),
+  length key = 32%nat -> wf_bytes key -> wf_bytes (concat cs) ->
+  onetimeauth_chunks key cs = Poly1305Spec.poly1305 key (concat cs).
+Proof. exact mac_chunks. Qed.
+
 Example C08_example :
   generichash_chunks 32 None [[1;2;3]; []; repeat 7 200; [9]] 32 = generichash 32 ([1;2;3] ++ repeat 7 200 ++ [9]) None.
 Proof. vm_compute. reflexivity. Qed.
